@@ -1251,15 +1251,21 @@ def add_violations(ctx: Ctx, viol, cap=6):
         return (len(c.get("ops", [])), len(c["spec"]) + sum(len(ms or []) for _, ms in c["spec"]), c.get("steps", 0))
 
     for c, o in sorted(viol, key=lambda co: size(co[0])):      # start the shrinking from the smallest case
-        k = (classify(c, o)[0], c.get("kind", "single"), c.get("mode"), bool(c.get("debug")), c["variant"])
+        clause, extra = classify(c, o)
+        k = (clause, extra.get("error"), c.get("kind", "single"), c.get("mode"), bool(c.get("debug")), c["variant"])
         seen.setdefault(k, (c, o))
-    for k in list(seen)[:cap]:
+    # different ways of failing first (clause, error class), then their variants
+    order, rest, kinds = [], [], set()
+    for k in seen:
+        (order if k[:2] not in kinds else rest).append(k)
+        kinds.add(k[:2])
+    for k in (order + rest)[:cap]:
         c, o = seen[k]
         ctx.violations.append(to_violation(ctx, c, o))
     ctx.cov["violating_cases"] = ctx.cov.get("violating_cases", 0) + len(viol)
 
 
-PICKLE_OK = False   # pickled pipelines enter the histories with the repair of C01-pickled-group-run
+PICKLE_OK = True    # a pickled pipeline runs since the repair of C01-pickled-group-run (ModelGroup.__setstate__)
 
 
 def hist_cases(ctx: Ctx, n: int, salt="hist"):
